@@ -125,7 +125,7 @@ class C18(Check):
 
     SHRINK = False
 
-    def still_fails(self, model, c):
+    def still_fails(self, model, c, shape=None):
         return False, None   # both sides are tied: report unshrunk
 
 
